@@ -21,8 +21,10 @@ import RModel.Lemmas.RenamePhase
   The guards are decidable.  `DestFree` (tree level) and `Fresh`/`NoChain`/`DistinctDests` (path level)
   are shown necessary by kernel-evaluated witnesses; two of them (`witness_chain_overwrites`,
   `witness_chain_rebased_destination`) were replayed on the real binary (2026-09-29) with exactly the
-  outcome the model predicts.  The planner does not guarantee `DestFree` (it only filters
-  several-sources-to-one-target conflicts), so the full C02 clause is false today for chained plans.
+  outcome the model predicts, on the binary built before the fix "refuse to apply when a rename
+  destination already exists"; after it `apply_plan` refuses such plans up front (`preflightOk`), and
+  `destFree_iff_preflight` shows that the pre-flight check is exactly the tree half of `DestFree`;
+  the other half (`SiblingDestsDistinct`) is the planner's several-to-one conflict filter.
   Identity renames (`a → a`) are allowed by the guards and handled.  The key-distinctness part of
   `TreeWF` is not used by the proofs (kept because it is part of what a tree is).
 -/
@@ -253,9 +255,30 @@ theorem noChain_of_guards (t : Tree) (rs : List Ren) (h1 : LastOnly rs) (h3 : Tr
     (h4 : KindsOk t rs) (h5 : DestFree t rs) : NoChain rs :=
   (RenamePhase.treeOk_of_guards h3.toLemma h1.toLemma h4.toLemma h5).freshSrc
 
-/-- The whole of `applyPlan`.  The content phase changes no key and no node kind, so the guards
-    survive it: when STEP 2 succeeds, the tree it leaves is moved by `moveAll`, and the only thing that
-    can still go wrong is STEP 4 (reading the edited files back for the undo patches). -/
+/-- the second half of `DestFree`: renamed siblings get different new names.  This is what the
+    planner's several-to-one conflict filter provides. -/
+def SiblingDestsDistinct (rs : List Ren) : Prop :=
+  ∀ r ∈ rs, ∀ r' ∈ rs, r'.path ≠ r.path → r'.path.dropLast = r.path.dropLast →
+    r'.newPath.getLast? ≠ r.newPath.getLast?
+
+instance (rs : List Ren) : Decidable (SiblingDestsDistinct rs) := by
+  unfold SiblingDestsDistinct; infer_instance
+
+/-- `DestFree` = the pre-flight check of `apply_plan` (no planned destination exists on disk)
+    + distinct destinations among renamed siblings -/
+theorem destFree_iff_preflight (t : Tree) (rs : List Ren) (h1 : LastOnly rs) (h3 : TreeWF t) :
+    DestFree t rs ↔ (preflightOk t rs = true ∧ SiblingDestsDistinct rs) := by
+  constructor
+  · intro h5
+    exact ⟨RenamePhase.preflight_of_fresh (RenamePhase.fresh_keys h3.toLemma h1.toLemma h5),
+      fun r hr => (h5 r hr).2⟩
+  · intro ⟨h, h'⟩
+    exact RenamePhase.destFree_of_preflight h1.toLemma h h'
+
+/-- The whole of `applyPlan`.  The pre-flight check passes, the content phase changes no key and no
+    node kind, so the guards survive it: when STEP 2 succeeds, the tree it leaves is moved by
+    `moveAll`, and the only thing that can still go wrong is STEP 4 (reading the edited files back
+    for the undo patches). -/
 theorem applyPlan_moves (t : Tree) (p : Plan) (h1 : LastOnly p.rens) (h2 : DistinctSources p.rens)
     (h3 : TreeWF t) (h4 : KindsOk t p.rens) (h5 : DestFree t p.rens)
     (hc : (contentPhase p.hunks t (sortedFiles p.hunks)).1 = .ok) :
@@ -263,6 +286,23 @@ theorem applyPlan_moves (t : Tree) (p : Plan) (h1 : LastOnly p.rens) (h2 : Disti
     ((applyPlan t p).outcome = .ok ∨ (applyPlan t p).outcome = .backupFailed) := by
   rw [moveAll_eq]
   exact RenamePhase.applyPlan_moves t p h1.toLemma h2 h3.toLemma h4.toLemma h5 hc
+
+/-- … and when a planned destination exists, nothing is touched at all.  Together with
+    `applyPlan_moves` and `destFree_iff_preflight`: under `LastOnly`, `DistinctSources`, `TreeWF`,
+    `KindsOk` and `SiblingDestsDistinct`, `applyPlan` either refuses up front or (content phase
+    permitting) moves every node to `finalPath`. -/
+theorem applyPlan_refused (t : Tree) (p : Plan) (h : preflightOk t p.rens = false) :
+    applyPlan t p = { outcome := .destExists, tree := t } :=
+  RenamePhase.applyPlan_refused t p h
+
+/-- STEP 4 (`generate_reverse_patches`) looks for every path at its final location -/
+theorem currentPath_after (t : Tree) (rs : List Ren) (h1 : LastOnly rs) (h2 : DistinctSources rs)
+    (h3 : TreeWF t) (h4 : KindsOk t rs) (h5 : DestFree t rs) (f : Path) :
+    currentPath (renamePhase t [] (sortRens rs)).performed f = finalPath rs f := by
+  rw [(renamePhase_ok t rs h1 h2 h3 h4 h5).2.2]
+  simp only [finalPath_eq]
+  exact RenamePhase.currentPath_sortRens rs h2
+    (RenamePhase.fileLeaf_of_guards h3.toLemma h1.toLemma h4.toLemma) f
 
 -- 4. corollaries --------------------------------------------------------------------------------------------
 
@@ -315,6 +355,8 @@ def exRens : List Ren :=
 example : LastOnly exRens ∧ DistinctSources exRens ∧ TreeWF exTree ∧ KindsOk exTree exRens ∧
     DestFree exTree exRens := by decide
 
+example : preflightOk exTree exRens = true ∧ SiblingDestsDistinct exRens := by decide
+
 /-- … `moveAll` is what one expects … -/
 example : moveAll exRens exTree =
   [([b!"baz_qux"], .dir 493),
@@ -359,27 +401,31 @@ theorem witness_shallow_last :
       = [b!"baz_qux", b!"baz_qux", b!"baz_qux.txt"] := by decide
 
 /-- `DestFree` is needed (1): a chain `foo → foofoo`, `foofoo → foofoofoofoo` in plan order
-    (what `renamify rename foo foofoo` plans for the files `foo` and `foofoo`): the phase reports
-    success, but the original `foofoo` has been overwritten — one node is lost. -/
+    (what `renamify rename foo foofoo` plans for the files `foo` and `foofoo`): STEP 3 on its own
+    reports success, but the original `foofoo` has been overwritten — one node is lost (observed on
+    the binary before the pre-flight check was added); with the pre-flight check `applyPlan` refuses. -/
 theorem witness_chain_overwrites :
     let t : Tree := [([b!"foo"], .file b!"A" 420), ([b!"foofoo"], .file b!"B" 420)]
     let rs : List Ren := [⟨[b!"foo"], [b!"foofoo"], .file⟩, ⟨[b!"foofoo"], [b!"foofoofoofoo"], .file⟩]
     LastOnly rs ∧ DistinctSources rs ∧ TreeWF t ∧ KindsOk t rs ∧ ¬ DestFree t rs ∧
     (renamePhase t [] (sortRens rs)).outcome = .ok ∧
     (renamePhase t [] (sortRens rs)).tree = [([b!"foofoofoofoo"], .file b!"A" 420)] ∧
-    moveAll rs t = [([b!"foofoo"], .file b!"A" 420), ([b!"foofoofoofoo"], .file b!"B" 420)] := by decide
+    moveAll rs t = [([b!"foofoo"], .file b!"A" 420), ([b!"foofoofoofoo"], .file b!"B" 420)] ∧
+    (applyPlan t ⟨[], rs⟩).outcome = .destExists ∧ (applyPlan t ⟨[], rs⟩).tree = t := by decide
 
 /-- `DestFree` is needed (2): the same chain in the *safe* sequential order `xa → a`, then
     `xxa → xa` (what `renamify rename xa a` plans for the files `xa`, `xxa`): the destination `xa`
     of the second rename is itself re-based on the first one and becomes `a/` — `ENOTDIR`,
-    everything is rolled back, although executing the plan as written would have worked. -/
+    everything is rolled back, although executing the plan as written would have worked (observed
+    on the binary before the pre-flight check was added; now `applyPlan` refuses up front). -/
 theorem witness_chain_rebased_destination :
     let t : Tree := [([b!"xa"], .file b!"B" 420), ([b!"xxa"], .file b!"A" 420)]
     let rs : List Ren := [⟨[b!"xa"], [b!"a"], .file⟩, ⟨[b!"xxa"], [b!"xa"], .file⟩]
     LastOnly rs ∧ DistinctSources rs ∧ TreeWF t ∧ KindsOk t rs ∧ ¬ DestFree t rs ∧
     (renamePhase t [] (sortRens rs)).outcome = .renameFailed .ENOTDIR ∧
     (renamePhase t [] (sortRens rs)).tree = t ∧
-    moveAll rs t = [([b!"a"], .file b!"B" 420), ([b!"xa"], .file b!"A" 420)] := by decide
+    moveAll rs t = [([b!"a"], .file b!"B" 420), ([b!"xa"], .file b!"A" 420)] ∧
+    (applyPlan t ⟨[], rs⟩).outcome = .destExists := by decide
 
 /-- the same for directories: `b → c` then `a → b`; the second destination is re-based to `c/`,
     which is a non-empty directory by then -/
